@@ -100,9 +100,9 @@ def oc_request(schema: Any, xe: Any, intro: Any, oc: Optional[tuple]):
 
 
 def default_models(rng, n_random: int) -> list[tuple]:
-    """explicitly empty groups of every kind and range + small and random non-empty models.  Excluded:
-    the empty choice with minOccurs>=1 (empty language: applicability is unobservable) and a NON-empty
-    top group with maxOccurs=0 (clause 2.1.4; the pinned library opens it: reported, not judged here)."""
+    """explicitly empty groups of every kind and range + small and random non-empty models, incl. NON-empty
+    top groups with maxOccurs=0 (clause 2.1.4: empty explicit content; finding C01-F2, fixed by 020d7cd).  Not
+    generated: the empty choice with minOccurs>=1 (empty language: applicability is unobservable)."""
     out = [('g', 'sequence', lo, hi, []) for lo, hi in ((1, 1), (0, 1), (0, 0), (2, 2), (0, None), (1, None))]
     out += [('g', 'all', 1, 1, []), ('g', 'all', 0, 1, [])]
     out += [('g', 'choice', 0, hi, []) for hi in (1, 0, None, 2)]
@@ -110,8 +110,10 @@ def default_models(rng, n_random: int) -> list[tuple]:
             ('g', 'sequence', 1, 1, [('g', 'sequence', 1, 1, [])]), ('g', 'choice', 0, 1, [('e', 'a', 1, 1)]),
             ('g', 'sequence', 0, 1, [('e', 'a', 1, 1), ('e', 'b', 0, None)]), ('g', 'all', 0, 1, [('e', 'a', 0, 1)]),
             ('g', 'choice', 1, 1, [('g', 'choice', 0, 1, [])])]
+    out += [('g', 'sequence', 0, 0, [('e', 'a', 1, 1)]), ('g', 'choice', 0, 0, [('e', 'a', 1, 1), ('e', 'b', 0, 1)]),
+            ('g', 'all', 0, 0, [('e', 'a', 0, 1)])]
     out += [cm.random_model(rng, ['a', 'b'], max_depth=2, v11=True, any_p=0.0) for _ in range(n_random)]
-    return [m for m in out if not (m[3] == 0 and m[4])]
+    return out
 
 
 def validate_word(xsd_element: Any, k: int, word: list[str], ids: dict[int, int]):
